@@ -27,36 +27,36 @@ def run(c):
         (S + "leaf_set::LeafSet::flush", None),
     ]
     for i, (fn, where) in enumerate(steps):
-        c.r1("compact-step-%d" % (i + 1), CC, fn, require_where=where, via=0, desc="check_compact: ok => step %d (%s%s)" % (i + 1, fn.split("::")[-1], " on " + where if where else ""))
+        c.r1("compact-step-%d" % (i + 1), CC, fn, require_where=where, via=2, desc="check_compact: ok => step %d (%s%s)" % (i + 1, fn.split("::")[-1], " on " + where if where else ""))
         if i > 0:
             pf, pw = steps[i - 1]
-            c.r1("compact-order-%d" % i, CC, pf, require_where=pw, sink=fn, sink_where=where, via=0,
+            c.r1("compact-order-%d" % i, CC, pf, require_where=pw, sink=fn, sink_where=where, via=2,
                  desc="check_compact: step %d (%s) precedes step %d (%s)" % (i, pf.split("::")[-1], i + 1, fn.split("::")[-1]))
     c.r2_arg("compact-prune-list-union", CC, "re:croaring::bitmap::.*or_inplace$", 1, must=["call:PMMRBackend::pos_to_rm"],
              desc="check_compact: the new prune list is the old one united with the leaves removed by this compaction")
     SY = PB + "sync"
-    c.r1("sync-hash", SY, DF + "flush", require_where=r"^arg0\.hash_file", sink="return", via=0, called_only=True)
-    c.r1("sync-data", SY, DF + "flush", require_where=r"^arg0\.data_file", sink="return", via=0, called_only=True)
-    c.r1("sync-leafset", SY, PB + "sync_leaf_set", sink="return", via=0, called_only=True)
-    c.r1("sync-prune-list", SY, S + "prune_list::PruneList::flush", sink="return", via=0, called_only=True)
+    c.r1("sync-hash", SY, DF + "flush", require_where=r"^arg0\.hash_file", sink="return", via=2, called_only=True)
+    c.r1("sync-data", SY, DF + "flush", require_where=r"^arg0\.data_file", sink="return", via=2, called_only=True)
+    c.r1("sync-leafset", SY, PB + "sync_leaf_set", sink="return", via=2, called_only=True)
+    c.r1("sync-prune-list", SY, S + "prune_list::PruneList::flush", sink="return", via=2, called_only=True)
     c.r2_ret("sync-combines-all", SY, must=["call:DataFile::flush", "call:PMMRBackend::sync_leaf_set", "call:PruneList::flush", "call:Result::and"],
              desc="PMMRBackend::sync returns the conjunction of all four flush results")
     RW = BI + "rewind"
-    c.r1("rewind-leafset", RW, S + "leaf_set::LeafSet::rewind", sink="return", via=0, called_only=True, extra_cuts=c.false_edges(RW, r"^arg0\.prunable$"),
+    c.r1("rewind-leafset", RW, S + "leaf_set::LeafSet::rewind", sink="return", via=2, called_only=True, extra_cuts=c.false_edges(RW, r"^arg0\.prunable$"),
          desc="Backend::rewind: a prunable backend rewinds its leaf set")
-    c.r1("rewind-hash", RW, DF + "rewind", require_where=r"^arg0\.hash_file", sink="return", via=0, called_only=True)
-    c.r1("rewind-data", RW, DF + "rewind", require_where=r"^arg0\.data_file", sink="return", via=0, called_only=True)
+    c.r1("rewind-hash", RW, DF + "rewind", require_where=r"^arg0\.hash_file", sink="return", via=2, called_only=True)
+    c.r1("rewind-data", RW, DF + "rewind", require_where=r"^arg0\.data_file", sink="return", via=2, called_only=True)
     c.r2_arg("rewind-leafset-args", RW, S + "leaf_set::LeafSet::rewind", 2, must=["arg2"])
     # --- pairing of output and rangeproof MMRs
     TC = X + "TxHashSet::compact"
-    c.r1("compact-output", TC, PB + "check_compact", require_where=r"^arg0\.output_pmmr_h\.backend, arg1\.output_mmr_size, txhashset::input_pos_to_rewind\(", via=0)
-    c.r1("compact-rproof", TC, PB + "check_compact", require_where=r"^arg0\.rproof_pmmr_h\.backend, arg1\.output_mmr_size, txhashset::input_pos_to_rewind\(", via=0)
+    c.r1("compact-output", TC, PB + "check_compact", require_where=r"^arg0\.output_pmmr_h\.backend, arg1\.output_mmr_size, txhashset::input_pos_to_rewind\(", via=2)
+    c.r1("compact-rproof", TC, PB + "check_compact", require_where=r"^arg0\.rproof_pmmr_h\.backend, arg1\.output_mmr_size, txhashset::input_pos_to_rewind\(", via=2)
     c.r2_arg("compact-same-cutoff", TC, PB + "check_compact", 1, must=["arg1.output_mmr_size"], floor=2)
     c.r2_arg("compact-same-rewind-bitmap", TC, PB + "check_compact", 2, must=["call:txhashset::input_pos_to_rewind", "arg1"], floor=2)
     c.r3("check_compact-callers", PB + "check_compact", {TC}, floor_sites=2)
     CO = CH + "compact"
-    c.r1("chain-compact-order", CO, TC, sink=X + "TxHashSet::init_output_pos_index", via=0)
-    c.r1("chain-compact-commit-last", CO, X + "TxHashSet::init_output_pos_index", sink="grin_chain::store::Batch::commit", via=0)
+    c.r1("chain-compact-order", CO, TC, sink=X + "TxHashSet::init_output_pos_index", via=2)
+    c.r1("chain-compact-commit-last", CO, X + "TxHashSet::init_output_pos_index", sink="grin_chain::store::Batch::commit", via=2)
     c.r2_arg("chain-compact-horizon", CO, X + "PMMRHandle::get_header_hash_by_height", 1, must=["call:num::saturating_sub", "call:global::cut_through_horizon", "call:Batch::head_header"])
     c.r2_arg("chain-compact-horizon-header", CO, TC, 1, must=["call:Batch::get_block_header", "call:PMMRHandle::get_header_hash_by_height"])
     c.r3("txhashset-compact-callers", TC, {CO}, floor_sites=1)
